@@ -9,7 +9,7 @@ if [ ! -d "$base/repo" ]; then mkdir -p "$base"; git -C /repo worktree add --det
 cd "$base/repo" && git checkout -q -- . && git clean -qfd -e target && git checkout -q --detach "$(git -C /repo rev-parse HEAD)" || exit 3
 cat "$dir/demo.rs" >> "$file"
 cargo test --offline -p "$crate" --lib "$@" "$filter" >"$dir/lead_demo_clean.log" 2>&1; a=$?
-git apply "$dir/patch.diff" || { echo "PATCH DOES NOT APPLY"; git checkout -q -- .; exit 3; }
+git apply "$dir/patch.diff" 2>/dev/null || git apply --3way "$dir/patch.diff" 2>/dev/null && git reset -q || { echo "PATCH DOES NOT APPLY"; git checkout -q -- .; exit 3; }
 cargo test --offline -p "$crate" --lib "$@" "$filter" >"$dir/lead_demo_changed.log" 2>&1; b=$?
 git checkout -q -- "$file"
 cargo test --offline -p "$crate" --lib "$@" >"$dir/lead_existing_tests.log" 2>&1; c=$?
